@@ -1,0 +1,13 @@
+//go:build verif
+
+package verifhook
+
+import (
+	"github.com/open2b/scriggo/internal/compiler"
+)
+
+// Constant arithmetic of internal/compiler/constant.go (see verif_consts.go).
+var (
+	Const     = compiler.VerifConst
+	ConstEval = compiler.VerifConstEval
+)
